@@ -254,7 +254,9 @@ class Builder(object):
         return result
 
     def add_lookup_to_feature_(self, lookup, feature_name):
-        for script, lang in self.language_systems:
+        # sorted, so that the insertion order of self.features_ (which decides the
+        # order of aalt alternates) does not depend on the string hash seed
+        for script, lang in sorted(self.language_systems):
             key = (script, lang, feature_name)
             self.features_.setdefault(key, []).append(lookup)
 
